@@ -1,19 +1,62 @@
 (** C04 -- Reading a LEF file yields every statement in it, with exact values.
 
-    Spec: Lef/LefSpec.v ([render], [lib_supported], [style_ok]); model: Lef/LefLex.v, Lef/LefParse.v ([parse]);
-    [lef_eq] (Lef/LefCheck.v): structural equality, decimals compared numerically. *)
+    Spec: Lef/LefSpec.v ([render], [lib_supported], [style_ok], written from the LEF reference, independent of
+    lef21's writer and reader); model: Lef/LefLex.v, Lef/LefParse.v ([parse], [cfg_fixed] = the repaired code,
+    the flags of [cfg] = the defects found); [lef_eq] (Lef/LefCheck.v): structural equality, decimals compared
+    numerically (rust_decimal's PartialEq).  Proofs: Lef/LefRt*_proofs.v, Lef/LefRoundtrip_proofs.v. *)
+From Coq Require Import String.
 From Coq Require Import ZArith List Bool.
 From L21 Require Import Lef.LefDec Lef.LefData Lef.LefLex Lef.LefParse Lef.LefWrite Lef.LefSpec Lef.LefCheck
-                        Lef.LefRoundtrip_proofs.
+                        Lef.LefLex_proofs Lef.LefRtLex_proofs Lef.LefRtDec_proofs Lef.LefRtFrame_proofs
+                        Lef.LefRtConstr_proofs Lef.LefRtPin_proofs Lef.LefRtVia_proofs Lef.LefRtSiteUnits_proofs
+                        Lef.LefRtMacro_proofs Lef.LefRtLib_proofs Lef.LefRtRender_proofs Lef.LefRtTop_proofs
+                        Lef.LefRoundtrip_proofs Gen.LefKeysGen.
 Import ListNotations.
 Local Open Scope Z_scope.
 
-(** The property, for the reader [cf]: every supported library, rendered in any well-formed style, is read back. *)
+(** * The property *)
+(** for the reader [cf]: every supported library, rendered in any well-formed style, is read back *)
 Definition C04_read_render_stmt (cf : cfg) : Prop :=
   forall sty l, lib_supported l -> style_ok sty l ->
     exists l', parse cf (render sty l) = Ok l' /\ lef_eq l l' = true.
 
-(** The code as found (one defect at a time) does not have the property. *)
+(** The repaired reader has the property: all library values of the supported subset, all styles (separators
+    with blanks, tabs, CR, LF and comments holding any UTF-8 without newline, any case of every keyword letter,
+    every number spelling of [spell], every permutation that [interleave] produces, END LIBRARY present or not). *)
+Theorem C04_read_render : C04_read_render_stmt cfg_fixed.
+Proof. exact read_render. Qed.
+
+(** * The lexer lemma *)
+(** a text made of tokens and blanks ([items_ok]: every token followed by white space or nothing) is lexed into
+    exactly its tokens, with spans whose byte slices of the text are the token texts *)
+Theorem C04_lex_items : forall items, items_ok items ->
+  exists tis p line ls, lex false (flatten items) = (tis, LEof p line ls)
+                        /\ Forall2 (sees_tok (flatten items)) tis (toks_of items).
+Proof. exact lex_items. Qed.
+(** the rendering of a supported library: the lexer returns the specification's tokens *)
+Theorem C04_lex_render_tokens : forall sty l, style_okb sty l = true -> lib_supportedb l = true ->
+  exists tis p line ls atoks, lex false (render sty l) = (tis, LEof p line ls)
+    /\ Forall2 (sees_tok (render sty l)) tis atoks /\ Forall2 arel (toks_of_lib sty spec_utf8 l) atoks.
+Proof. exact LefRtRender_lex. Qed.
+
+(** * Numbers: every spelling the style allows is read as the same number *)
+Theorem C04_spell_parses : forall sp d, dec_ok d = true ->
+  exists d', dec_of_bytes (spell sp d) = DOk d' /\ dec_eq d d' = true /\ dec_wf d'
+             /\ d_neg d' = d_neg d /\ d_scale d <= d_scale d' /\ d_mant d' = d_mant d * 10 ^ (d_scale d' - d_scale d).
+Proof. exact spell_parses. Qed.
+Theorem C04_spell_is_number : forall sp d, dec_ok d = true -> is_rust_float (spell sp d) = true.
+Proof. exact spell_float. Qed.
+
+(** * The text given as items, in general form (shared with C05) *)
+Theorem C04_parse_items : forall l items, items_ok items -> lib_toksP l (toks_of items) ->
+  exists l', parse cfg_fixed (flatten items) = Ok l' /\ lef_eq l l' = true.
+Proof. exact parse_items. Qed.
+
+(** * The keyword tables of the model are those of lef21/src/data.rs (regenerated on every run) *)
+Theorem C04_keys_tied : LefRt_model_enums = gen_lef_enums.
+Proof. exact LefRt_keys_tied. Qed.
+
+(** * The code as found (one defect at a time) does not have the property *)
 Theorem C04_charpos_orig_refuted : ~ C04_read_render_stmt cfg_only_charpos.
 Proof.
   intro H. destruct (H LefRt_sty_comment LefRt_lib_macro) as [l' [Hp He]]; try (vm_compute; reflexivity).
@@ -35,11 +78,73 @@ Proof.
   pose proof (proj1 LefRt_dbu_mantissa_refuted) as R. unfold reads_back in R. rewrite Hp in R. congruence.
 Qed.
 
+(** * Non-vacuity: a non-trivial supported library and a style with a non-ASCII comment, lower-case letters,
+      padded numbers, a permutation and no END LIBRARY; the hypotheses hold and the reader returns the library *)
+Definition C04_ex_lib : lef_lib :=
+  let pt x y := Build_lef_point (mkdec false x 1) (mkdec false y 2) in
+  let lg := Build_lef_layer_geoms (bs "met1")
+              [GShape (ShRect (Some (dec_of_Z 2)) (Build_lef_point (mkdec true 5 1) (mkdec true 15 2)) (pt 25 5));
+               GIterate (ShPolygon None [pt 0 0; pt 10 0; pt 10 10]) (Build_lef_step (dec_of_Z 2) (dec_of_Z 3) (dec_of_Z 4) (dec_of_Z 5))]
+              [Build_lef_via_inst (bs "v12") (pt 1 1)] (Some true) (Some (LsSpacing (mkdec false 5 2))) (Some (mkdec false 14 2)) in
+  let pin := Build_lef_pin (bs "A") [Build_lef_port (Some LefPortClass_Core) [lg]] (Some (DirOutput true)) (Some LefPinUse_Signal)
+               None (Some LefAntennaModel_Oxide1) [Build_lef_antenna_attr (bs "AntennaGateArea") (mkdec false 15 1) (Some (bs "met1"))]
+               None None None None (Some (bs """n e""")) [Build_lef_property (bs "p") (bs "1.50")] in
+  let mac := Build_lef_macro (bs "inv_1") [pin] [lg] (Some (McCore (Some LefCoreClassType_TieHigh)))
+               (Some (Build_lef_foreign (bs "f") (Some (pt 0 0)) (Some LefOrient_FN))) (Some (pt 0 0))
+               (Some (mkdec false 138 2, mkdec false 272 2)) (Some [LefSymmetry_X; LefSymmetry_R90]) (Some (bs "unit")) None None true
+               [Build_lef_property (bs "q") (bs """a b""")] None in
+  Build_lef_lib [mac] [Build_lef_site (bs "unit") LefSiteClass_Core (mkdec false 46 2, mkdec false 272 2) None] []
+    (Some (mkdec false 57 1)) None None (Some (91, 93)) (Some 47)
+    (Some (Build_lef_units (Some 1000) None None None None None None None)) false None
+    [Build_lef_extension (bs """t""") (bs "x 1.5 ; ")] (Some (mkdec false 5 3)) None [].
+Definition C04_ex_sty : style :=
+  mkstyle [SComment [195; 169]] [[SWs 32]; [SWs 10; SComment [228; 184; 173]; SWs 9]] [SWs 10] (Some [35])
+          [[true; false]] [mknumsp 1 false 2 false; mknumsp 0 true 0 false] [3; 1; 2; 0; 5]%nat true false.
+Example C04_read_render_nonvacuous :
+  lib_supported C04_ex_lib /\ style_ok C04_ex_sty C04_ex_lib
+  /\ List.length (render C04_ex_sty C04_ex_lib) = 1479%nat
+  /\ reads_back cfg_fixed C04_ex_sty C04_ex_lib = true /\ reads_back cfg_orig C04_ex_sty C04_ex_lib = false.
+Proof. vm_compute. repeat split; reflexivity. Qed.
+
+Check C04_read_render : forall sty l, lib_supported l -> style_ok sty l ->
+  exists l', parse cfg_fixed (render sty l) = Ok l' /\ lef_eq l l' = true.
+Check C04_lex_items : forall items, items_ok items ->
+  exists tis p line ls, lex false (flatten items) = (tis, LEof p line ls) /\ Forall2 (sees_tok (flatten items)) tis (toks_of items).
+Check C04_lex_render_tokens : forall sty l, style_okb sty l = true -> lib_supportedb l = true ->
+  exists tis p line ls atoks, lex false (render sty l) = (tis, LEof p line ls)
+    /\ Forall2 (sees_tok (render sty l)) tis atoks /\ Forall2 arel (toks_of_lib sty spec_utf8 l) atoks.
+Check C04_spell_parses : forall sp d, dec_ok d = true ->
+  exists d', dec_of_bytes (spell sp d) = DOk d' /\ dec_eq d d' = true /\ dec_wf d'
+             /\ d_neg d' = d_neg d /\ d_scale d <= d_scale d' /\ d_mant d' = d_mant d * 10 ^ (d_scale d' - d_scale d).
+Check C04_spell_is_number : forall sp d, dec_ok d = true -> is_rust_float (spell sp d) = true.
+Check C04_parse_items : forall l items, items_ok items -> lib_toksP l (toks_of items) ->
+  exists l', parse cfg_fixed (flatten items) = Ok l' /\ lef_eq l l' = true.
+Check C04_keys_tied : LefRt_model_enums = gen_lef_enums.
 Check C04_charpos_orig_refuted : ~ C04_read_render_stmt cfg_only_charpos.
 Check C04_drop_props_orig_refuted : ~ C04_read_render_stmt cfg_only_drop_props.
 Check C04_points_to_semi_orig_refuted : ~ C04_read_render_stmt cfg_only_points_to_semi.
 Check C04_dbu_mantissa_orig_refuted : ~ C04_read_render_stmt cfg_only_dbu_mantissa.
+(** one lemma per construct (a selection; all are in Lef/LefRt*_proofs.v) *)
+Check parse_geometry_ok : forall src g atoks, geom_len_ok g = true -> Forall2 arel (t_geometry g) atoks ->
+  spec src (parse_geometry cfg_fixed src) atoks Any (fun g' => lef_geometry_eqb dec_eq g g' = true).
+Check parse_layer_P : forall src l atoks, layer_toksP l atoks ->
+  spec src (parse_layer_geometries cfg_fixed src) atoks layer_follow (fun l' => lef_layer_geoms_eqb dec_eq l l' = true).
+Check parse_pin_P : forall src p atoks, pin_toksP p atoks ->
+  spec src (parse_pin cfg_fixed src) atoks Any (fun p' => lef_pin_eqb dec_eq p p' = true).
+Check parse_via_P : forall src v atoks, via_toksP v atoks ->
+  spec src (parse_via cfg_fixed src) atoks Any (fun v' => lef_via_def_eqb dec_eq v v' = true).
+Check parse_site_P : forall src s atoks, site_toksP s atoks ->
+  spec src (parse_site_def cfg_fixed src) atoks Any (fun s' => lef_site_eqb dec_eq s s' = true).
+Check parse_units_P : forall src u atoks, units_toksP u atoks ->
+  spec src (parse_units cfg_fixed src) atoks Any (fun u' => lef_units_eqb dec_eq u u' = true).
 
+Print Assumptions C04_read_render.
+Print Assumptions C04_lex_items.
+Print Assumptions C04_lex_render_tokens.
+Print Assumptions C04_spell_parses.
+Print Assumptions C04_spell_is_number.
+Print Assumptions C04_parse_items.
+Print Assumptions C04_keys_tied.
 Print Assumptions C04_charpos_orig_refuted.
 Print Assumptions C04_drop_props_orig_refuted.
 Print Assumptions C04_points_to_semi_orig_refuted.
